@@ -214,10 +214,18 @@ class CoroStart(Awaitable[T_co]):
         first. Returns `True` if the coroutine finished without blocking.
         """
         try:
-            return self._resume(self.coro.send, None), None
+            out_value = self._resume(self.coro.send, None)
         except BaseException as exception:
             # Coroutine returned without blocking
             return (None, exception)
+        # A Future is yielded by `Future.__await__()` with its
+        # `_asyncio_future_blocking` flag set, for the Task which receives it to
+        # clear.  We hold on to it instead.  Clear the flag, as a Task would,
+        # so that the future can be awaited by others in the meantime.
+        # `__await__()` sets it again when it finally passes the future on.
+        if getattr(out_value, "_asyncio_future_blocking", None):
+            out_value._asyncio_future_blocking = False
+        return out_value, None
 
     def _resume(self, method: Callable[..., Any], *args: Any) -> Any:
         """
@@ -252,6 +260,10 @@ class CoroStart(Awaitable[T_co]):
         # yield up the initial future from `coro_start`.
         # This is similar to how `yield from` is defined (see pep-380)
         # except that it uses a coroutines's send() and throw() methods.
+        if getattr(out_value, "_asyncio_future_blocking", None) is not None:
+            # see `_start()`.  Whoever cleared the flag, the Task receiving
+            # the future expects it to be set.
+            out_value._asyncio_future_blocking = True
         while True:
             try:
                 in_value = yield out_value
